@@ -297,6 +297,45 @@ def known_class_of(prop, rec):
     return None
 
 
+# ------------------------------------------------------------------ source fingerprints
+FINGERPRINTS = os.path.join(VERIF, "source_fingerprints.json")
+
+
+def source_files():
+    out = []
+    for root, pat in (("src", ".rs"), ("py", ".py")):
+        for dp, _, fns in os.walk(os.path.join(REPO, root)):
+            for fn in fns:
+                if fn.endswith(pat):
+                    out.append(os.path.relpath(os.path.join(dp, fn), REPO))
+    for extra in ("Cargo.toml", "Cargo.lock"):
+        if os.path.exists(os.path.join(REPO, extra)):
+            out.append(extra)
+    return sorted(out)
+
+
+def current_fingerprints():
+    import hashlib
+    return {f: hashlib.sha256(open(os.path.join(REPO, f), "rb").read()).hexdigest() for f in source_files()}
+
+
+def changed_sources():
+    """Files of /repo whose text differs from the tree the model was last written against
+    (source_fingerprints.json).  A difference is not an alarm: it makes the run look harder."""
+    try:
+        base = json.load(open(FINGERPRINTS))["files"]
+    except Exception:
+        return ["(no fingerprint baseline)"]
+    cur = current_fingerprints()
+    return sorted(f for f in set(base) | set(cur) if base.get(f) != cur.get(f))
+
+
+def write_fingerprints():
+    rc, head = sh(["git", "-C", REPO, "rev-parse", "HEAD"])
+    write_json(FINGERPRINTS, {"repo_head": head.strip(), "files": current_fingerprints()})
+    return 0
+
+
 # ------------------------------------------------------------------ evidence / replay
 def write_json(path, obj):
     os.makedirs(os.path.dirname(path), exist_ok=True)
@@ -327,6 +366,8 @@ def main(argv):
     seed = int(os.environ.get("VERIF_SEED", "1") or 1)
     if a.prop == "setup":
         return setup()
+    if a.prop == "fingerprint":
+        return write_fingerprints()
     prop = a.prop
     if prop not in ALL_PROPS:
         log("unknown property", prop)
